@@ -6,7 +6,7 @@
 From Coq Require Import List ZArith.
 From LJT Require Import gen.GenPnm model.Pnm model.Bmp proofs.PnmProofs proofs.PnmRoundtrip proofs.PnmTop proofs.PnmExamples
   proofs.BmpProofs proofs.BmpRoundtrip proofs.BmpTop gen.GenImgPrec model.ImgEntry proofs.ImgEntryProofs
-  gen.GenImgRd model.RdCommon model.Gif model.Tga proofs.GifProofs proofs.TgaProofs proofs.ImgRdTop proofs.GifStale proofs.PnmRescale.
+  gen.GenImgRd model.RdCommon model.Gif model.Tga proofs.GifProofs proofs.TgaProofs proofs.ImgRdTop proofs.GifStale proofs.PnmRescale gen.GenCmyk model.Cmyk proofs.CmykProofs.
 Import ListNotations.
 Local Open Scope Z_scope.
 
@@ -240,6 +240,28 @@ Theorem C18_ppm_rescale_both_directions : forall prec maxval, 0 <= prec -> 0 < m
 Proof. exact rescale_both_directions. Qed.
 Print Assumptions C18_ppm_rescale_both_directions.
 
+(* (15) cmyk.h in exact arithmetic: cmyk_to_rgb (rgb_to_cmyk p) = p for EVERY maxval (every precision) and every
+   pixel; K is the brightest component and C, M, Y stay within 0..maxval *)
+Theorem C18_cmyk_roundtrip_exact : forall M r g b, 0 < M -> 0 <= r <= M -> 0 <= g <= M -> 0 <= b <= M ->
+  let '(c, m, y, k) := rgb_to_cmyk_z M r g b in cmyk_to_rgb_z M c m y k = (r, g, b) /\
+  k = Z.max r (Z.max g b) /\ 0 <= c <= M /\ 0 <= m <= M /\ 0 <= y <= M.
+Proof. exact cmyk_roundtrip_exact. Qed.
+Print Assumptions C18_cmyk_roundtrip_exact.
+
+(* ... with a margin: for ANY c that is maxval*r/x rounded to nearest (either tie direction) the quantity
+   c*x/maxval + 1/2 truncated by cmyk_to_rgb lies in [r + (M-x)/(2M), r + 1 - (M-x)/(2M)] (x < M) resp. equals
+   r + 1/2 (x = M): an evaluation error below 1/(2M) cannot change the result *)
+Theorem C18_cmyk_roundtrip_margin : forall M x r c, 0 < x <= M -> 0 <= r <= x -> 2 * Z.abs (c * x - M * r) <= x ->
+  2 * M * r + (M - x) <= 2 * (c * x) + M <= 2 * M * r + M + x /\ round_div (c * x) M = r.
+Proof. exact cmyk_margin. Qed.
+Print Assumptions C18_cmyk_roundtrip_margin.
+
+(* the C text evaluates these formulas (shapes pinned by the translator) in a format with >= 34 significand bits:
+   products of two 16-bit samples are exact and one division's error 2^16 * 2^-p is far below 2^-17 *)
+Theorem C18_source_cmyk_arithmetic : 34 <= cmyk_significand_bits /\ cmyk_round_half_up = true /\ cmyk_shapes_ok = true.
+Proof. exact cmyk_float_wide_enough. Qed.
+Print Assumptions C18_source_cmyk_arithmetic.
+
 (* ---- non-vacuity ---- *)
 Example C18_ex_text_ok : bytes f_text /\ load_pnm cmyk_exact look_tbl 2 0 None false f_text = Ok (2, 1, TGray, [[1; 2]]).
 Proof. exact ex_text_ok. Qed.
@@ -293,3 +315,7 @@ Example C18_ex_gif_tga :
 Proof. exact ex_gif_tga. Qed.
 Example C18_ex_linv_satisfiable : linv (lzw_init 2 0 [2; 140; 45; 153; 135; 42; 28; 220; 51; 160; 2; 117; 236; 149; 250; 168; 222; 96; 140; 4; 145; 76; 1; 0; 59]).
 Proof. exact ex_linv. Qed.
+Example C18_ex_cmyk : rgb_to_cmyk_z 8191 3893 7838 8179 = (3899, 7849, 8191, 8179) /\
+  cmyk_to_rgb_z 8191 3899 7849 8191 8179 = (3893, 7838, 8179) /\
+  rgb_to_cmyk_z 255 0 0 0 = (255, 255, 255, 0) /\ cmyk_to_rgb_z 3 2 3 0 2 = (1, 2, 0) /\ rgb_to_cmyk_z 3 1 2 0 = (2, 3, 0, 2).
+Proof. exact ex_cmyk. Qed.
